@@ -137,58 +137,11 @@ def stage_p(chk, tier, bindir):
     restarts hit both; a crash inside one shard's flush pipeline or compaction round is a quiescent crash of the
     other, which may hold unflushed events, rotated WAL logs and segments of its own.  Each shard's reads are judged
     against its own instance's predictions exactly like stage R (event types are disjoint per shard)."""
-    rnd = random.Random(core.seed() + 77)
     q = tier == "quick"
-    ta, tb = ["a", "b"], ["p", "q"]
-    routes = storage.probe_routing(bindir, 3)
-    two = sorted((sh for sh in routes if len(routes[sh]) >= 2), key=lambda sh: -len(routes[sh]))[:2]
-    if len(two) < 2:
-        raise core.ToolError(f"routing probe: fewer than two shards with two contexts each: {routes}")
-    sh_a, sh_b = sorted(two, reverse=True)
-    names_a = dict(zip(CTXS, routes[sh_a][:2]))
-    names_b = dict(zip(CTXS, routes[sh_b][:2]))
-    stats = Counter()
-    tot_feat, cov_feat = set(), set()
     plans = [{"name": "c01p-cap2k2", "cap": 2, "k": 2, "gen_len": 10, "n_sim": 400, "n_rep": 10 if q else 150}]
     if not q:
         plans.append({"name": "c01p-cap3k2", "cap": 3, "k": 2, "gen_len": 12, "n_sim": 300, "n_rep": 80})
-    for pl in plans:
-        cfgp = storage.gen_cfg2(pl["name"], cap=pl["cap"], k=pl["k"], types_a=ta, types_b=tb, ctxs=CTXS, gen_len=pl["gen_len"])
-        behs, r = storage.behaviours2(cfgp, n=pl["n_sim"], gen_len=pl["gen_len"], seed=core.seed() + 31 * pl["cap"])
-        rnd.shuffle(behs)
-        # keep behaviours in which both shards store and at least one non-quiescent crash happens
-        behs = [b for b in behs if {c["sh"] for c in b if c["cmd"] == "store"} >= {"A", "B"}]
-        feats = [storage.features2(b) for b in behs]
-        chosen, covered = [], set()
-        rest = list(range(len(behs)))
-        while rest and len(chosen) < pl["n_rep"]:
-            best = max(rest, key=lambda i: len(feats[i] - covered))
-            chosen.append(best)
-            covered |= feats[best]
-            rest.remove(best)
-        tot_feat |= set().union(*feats) if feats else set()
-        cov_feat |= covered
-        core.log(f"[C01] stage P {pl['name']}: {len(behs)} two-shard behaviours, {len(chosen)} replayed on shards {sh_a},{sh_b} of 3")
-        for bi in chosen:
-            beh = behs[bi]
-            res, problems = storage.run_pair(bindir, beh, root=core.WORK / "c01" / f"{pl['name']}-{bi}", cap=pl["cap"], k=pl["k"],
-                                             types_a=ta, types_b=tb, ctxs=CTXS, shards=3, sh_a=sh_a, sh_b=sh_b,
-                                             names_a=names_a, names_b=names_b)
-            stats["behaviours"] += 1
-            stats["lifetimes"] += 1 + sum(1 for c in beh if c["cmd"] in ("crash", "restart") or c.get("crash", "none") != "none")
-            if any(c.get("crash", "none") != "none" for c in beh):
-                stats["with_pipeline_crash"] += 1
-            for which, types in (("A", ta), ("B", tb)):
-                pb, recs = res[which]
-                judge(chk, pb, recs, problems, {"cap": pl["cap"], "k": pl["k"], "plan": pl["name"], "two_shards": True,
-                                                "view": which, "joint": [{x: c[x] for x in c if x not in ("obsA", "obsB")} for c in beh]},
-                      stats, types=types)
-            if stats["behaviours"] <= 1:
-                chk.sample({"config": pl["name"] + " (two active shards)",
-                            "commands": [{x: c[x] for x in c if x not in ("obsA", "obsB")} for c in beh]})
-    chk.cov["two_shard_stage"] = {**dict(stats), "feature_classes_covered": len(cov_feat), "feature_classes_in_sim": len(tot_feat),
-                                  "shards": [sh_a, sh_b], "spec": "Storage2Gen.tla"}
-    return stats
+    return storage.campaign2(chk, "C01", plans, CTXS, bindir, judge, random.Random(core.seed() + 77))
 
 
 def stage_t(chk, tier, bindir):
